@@ -131,7 +131,7 @@ fn fmt_pairs(mut v: Vec<(u64, HLCTimestamp)>) -> String {
 }
 
 async fn with_timeout<T>(f: impl std::future::Future<Output = T>) -> Option<T> {
-    tokio::time::timeout(Duration::from_millis(300), f).await.ok()
+    tokio::time::timeout(Duration::from_millis(1000), f).await.ok()
 }
 
 async fn run_op<S: Storage>(
